@@ -124,6 +124,19 @@ func lossyConv(c *Ctx, prop string) {
 						if x == nil || y == nil {
 							continue
 						}
+						// round-trip test: `S(T(v)) == v` holds exactly when v is representable in T (truncate and extend)
+						if op == token.EQL {
+							for _, pr := range [][2]ssa.Value{{x, y}, {y, x}} {
+								back, ok := pr[0].(*ssa.Convert)
+								if !ok || !an.SameVar(pr[1], cv.X) && pr[1] != cv.X {
+									continue
+								}
+								narrow, ok := back.X.(*ssa.Convert)
+								if ok && types.Identical(narrow.Type(), cv.Type()) && (narrow.X == cv.X || an.SameVar(narrow.X, cv.X)) && types.Identical(back.Type(), cv.X.Type()) {
+									haveLo, haveHi = true, true
+								}
+							}
+						}
 						if _, isC := constBig(x); isC { // mirror: const on the left
 							x, y = y, x
 							switch op {
@@ -171,6 +184,10 @@ func lossyConv(c *Ctx, prop string) {
 								}
 							}
 						}
+					}
+					if !(haveLo && haveHi) && roundTripChecked(cv) {
+						// `n := T(v); if S(n) != v { fail }; use n`: converted first, every other use behind the round-trip test
+						haveLo, haveHi = true, true
 					}
 					if haveLo && haveHi && tooStrict != "" {
 						c.R.Bad(key, w.pos(cv), "the range test before the conversion is stricter than "+cv.Type().String()+"'s range ("+tooStrict+"): a valid input is rejected instead of being delivered")
@@ -840,4 +857,38 @@ func c02ArgPath(c *Ctx) {
 	if total < 40 {
 		c.R.Fail("arg-path examined only %d sites", total)
 	}
+}
+
+// roundTripChecked: the narrowed value cv is used only (a) to be widened back and compared with the original, and (b) on edges
+// where that comparison found them equal.
+func roundTripChecked(cv *ssa.Convert) bool {
+	isBack := func(v ssa.Value) bool {
+		back, ok := v.(*ssa.Convert)
+		return ok && back.X == ssa.Value(cv) && types.Identical(back.Type(), cv.X.Type())
+	}
+	equalFact := func(at ssa.Instruction) bool {
+		for _, f := range an.Facts(at) {
+			if f.Op != token.EQL || f.X == nil || f.Y == nil {
+				continue
+			}
+			if isBack(f.X) && (f.Y == cv.X || an.SameVar(f.Y, cv.X)) || isBack(f.Y) && (f.X == cv.X || an.SameVar(f.X, cv.X)) {
+				return true
+			}
+		}
+		return false
+	}
+	n := 0
+	for _, r := range an.Referrers(cv) {
+		if _, isDbg := r.(*ssa.DebugRef); isDbg {
+			continue
+		}
+		if v, ok := r.(ssa.Value); ok && isBack(v) {
+			n++
+			continue
+		}
+		if !equalFact(r) {
+			return false
+		}
+	}
+	return n > 0
 }
